@@ -15,7 +15,7 @@ import (
 	"verif/internal/gen"
 )
 
-const rule = "programs = rapid-drawn (config, key pool, 10-80 steps over put/del/tx/batch/flush/compact/crange/reopen); " +
+const rule = "programs = rapid-drawn (config, key pool, 10-80 steps over put/del/tx/batch/flush/compact/crange/reopen and retire = flush everything + drop the flushed log files through WAL.ManageRetention, so that after a reopen only SSTables serve the reads); " +
 	"oracle = map model, every pool key read after every step; non-trivial = the program has a maintenance step " +
 	"(flush/compact/crange/reopen or an automatic memtable switch is implied by small memtables) after which a key written " +
 	"before it is overwritten or deleted; distinct by FNV-64 of the program JSON"
@@ -39,6 +39,7 @@ func classify(p *drive.Program) (nontrivial bool, classes []string) {
 	written := map[int]bool{}
 	beforeMaint := map[int]bool{}
 	maint, reopens, txs := 0, 0, 0
+	retired, sstOnly := false, false
 	txKeys := map[int]bool{}
 	writeAfterTx := false
 	for _, s := range p.Steps {
@@ -73,8 +74,14 @@ func classify(p *drive.Program) (nontrivial bool, classes []string) {
 					}
 				}
 			}
-		case "flush", "compact", "crange", "reopen":
+		case "flush", "compact", "crange", "reopen", "retire":
 			maint++
+			if s.Op == "retire" {
+				retired = true
+			}
+			if s.Op == "reopen" && retired {
+				sstOnly = true
+			}
 			if s.Op == "reopen" {
 				reopens++
 			}
@@ -97,6 +104,9 @@ func classify(p *drive.Program) (nontrivial bool, classes []string) {
 	}
 	if p.Cfg.MemTableSize <= 4096 {
 		classes = append(classes, "small_memtable")
+	}
+	if sstOnly {
+		classes = append(classes, "reopen_after_log_retired(reads_from_sstables_only)")
 	}
 	return
 }
